@@ -421,17 +421,19 @@ class MOLGP:
                 correlation kernels (True) or just the exchange kernels
                 (False).
         """
+        save_refs = True
         for i, kernel in enumerate(self.kernels):
             print(ddir, get_orb_deriv, get_correlation)
-            save_refs = i == 0
             if isinstance(get_orb_deriv, (list, tuple)):
                 deriv = get_orb_deriv[i]
             else:
                 deriv = get_orb_deriv
             if get_correlation or kernel.component == "x":
+                # the reference data are stored by the first kernel that is processed
                 self._compute_mol_covs(
                     ddir, mol_ids, kernel, get_orb_deriv=deriv, save_refs=save_refs
                 )
+                save_refs = False
 
     def reset_reactions(self):
         self.rxn_ref_list = []
